@@ -1,0 +1,104 @@
+//go:build verif
+
+// Machine-checked contracts for package segment, consumed by /verif/bin/walvc.
+// This file contains no code; it is only compiled (to nothing) under the
+// `verif` build tag.
+
+package segment
+
+// ---------------------------------------------------------------------------
+// format.go — byte layout against the README tables
+// ---------------------------------------------------------------------------
+
+//@ -- README: "padded with zero bytes so the next frame starts on an 8-byte boundary"
+//@ predicate padLen_spec(n) = (8 - n % 8) % 8
+
+//@ func padLen
+//@   props C09 C15
+//@   requires 0 <= n
+//@   ensures[C09.pad-range] 0 <= result && result <= 7
+//@   ensures[C09.pad-align] (n + result) % 8 == 0
+//@   ensures[C09.pad-minimal] n % 8 == 0 ==> result == 0
+
+//@ func encodedFrameSize
+//@   props C09 C15
+//@   requires 0 <= payloadLen && payloadLen <= 0xffffffff
+//@   ensures[C09.frame-size] result == 8 + payloadLen + padLen_spec(payloadLen)
+//@   ensures[C09.frame-align] result % 8 == 0 && result >= 8 && result <= payloadLen + 15
+
+//@ func indexFrameSize
+//@   props C09
+//@   requires 0 <= numEntries && numEntries <= 0x3fffffff
+//@   ensures[C09.index-size] (numEntries == 0 ==> result == 0) && (numEntries > 0 ==> result == 8 + 4*numEntries + padLen_spec(4*numEntries))
+
+//@ func writeFileHeader
+//@   props C09
+//@   assigns buf[0:32]
+//@   ensures[C09.header-short] len(buf) < 32 <==> result != nil
+//@   ensures[C09.header-layout] result == nil ==> LE32(buf, 0) == 0x58eb6b0d && buf[4] == 0 && buf[5] == 0 && buf[6] == 0 && buf[7] == 0
+//@      && LE64(buf, 8) == info.BaseIndex && LE64(buf, 16) == info.ID && LE64(buf, 24) == info.Codec
+
+//@ func readFileHeader
+//@   props C09 C11
+//@   ensures[C11.header-short] len(buf) < 32 ==> result1 != nil
+//@   ensures[C09.header-read] result1 == nil ==> result0 != nil && LE32(buf, 0) == 0x58eb6b0d && buf[4] == 0 && buf[5] == 0 && buf[6] == 0 && buf[7] == 0
+//@      && result0.BaseIndex == LE64(buf, 8) && result0.ID == LE64(buf, 16) && result0.Codec == LE64(buf, 24)
+//@   ensures[C11.header-magic] len(buf) >= 32 && (LE32(buf, 0) != 0x58eb6b0d || buf[4] != 0 || buf[5] != 0 || buf[6] != 0 || buf[7] != 0) ==> result1 == types.ErrCorrupt
+//@   ensures[C11.header-total] len(buf) >= 32 && LE32(buf, 0) == 0x58eb6b0d && buf[4] == 0 && buf[5] == 0 && buf[6] == 0 && buf[7] == 0 ==> result1 == nil
+
+//@ func validateFileHeader
+//@   props C09 C11
+//@   ensures[C11.header-validate] result == nil <==> (got.ID == expect.ID && got.BaseIndex == expect.BaseIndex && got.Codec == expect.Codec)
+//@   ensures[C11.header-validate-err] result != nil ==> errors.Is(result, types.ErrCorrupt)
+
+//@ -- README frame header: byte 0 type, bytes 1..3 reserved (zero), bytes 4..7 little-endian length (entry, index) or CRC (commit)
+//@ func writeFrameHeader
+//@   props C09
+//@   assigns buf[0:8]
+//@   ensures[C09.fh-short] len(buf) < 8 <==> result != nil
+//@   ensures[C09.fh-layout] result == nil ==> buf[0] == h.typ && buf[1] == 0 && buf[2] == 0 && buf[3] == 0
+//@      && LE32(buf, 4) == ite(h.typ == FrameCommit, h.crc, h.len)
+
+//@ func readFrameHeader
+//@   props C09 C11
+//@   ensures[C11.fh-short] len(buf) < 8 ==> result1 != nil
+//@   ensures[C11.fh-unknown-type] len(buf) >= 8 && buf[0] > 3 ==> errors.Is(result1, types.ErrCorrupt)
+//@   ensures[C11.fh-zero] len(buf) >= 8 && buf[0] == 0 ==> (result1 == nil <==> (buf[1] == 0 && buf[2] == 0 && buf[3] == 0 && LE32(buf, 4) == 0))
+//@   ensures[C11.fh-zero-typ] len(buf) >= 8 && buf[0] == 0 && result1 == nil ==> result0.typ == 0 && result0.len == 0 && result0.crc == 0
+//@   ensures[C11.fh-zero-err] len(buf) >= 8 && buf[0] == 0 && result1 != nil ==> errors.Is(result1, types.ErrCorrupt)
+//@   ensures[C09.fh-read-len] len(buf) >= 8 && (buf[0] == FrameEntry || buf[0] == FrameIndex) ==> result1 == nil && result0.typ == buf[0] && result0.len == LE32(buf, 4) && result0.crc == 0
+//@   ensures[C09.fh-read-crc] len(buf) >= 8 && buf[0] == FrameCommit ==> result1 == nil && result0.typ == FrameCommit && result0.crc == LE32(buf, 4) && result0.len == 0
+
+//@ func writeFrame
+//@   props C09 C15
+//@   requires int(h.len) <= len(payload)
+//@   assigns buf[0:8+int(h.len)+padLen_spec(int(h.len))]
+//@   ensures[C09.frame-short] result != nil <==> len(buf) < 8 + int(h.len) + padLen_spec(int(h.len))
+//@   ensures[C09.frame-header] result == nil ==> buf[0] == h.typ && buf[1] == 0 && buf[2] == 0 && buf[3] == 0
+//@      && LE32(buf, 4) == ite(h.typ == FrameCommit, h.crc, h.len)
+//@   ensures[C09.frame-payload] result == nil ==> eqbytes(buf, 8, payload, 0, int(h.len))
+//@   ensures[C09.frame-padding] result == nil ==> zero(buf, 8 + int(h.len), 8 + int(h.len) + padLen_spec(int(h.len)))
+//@   loop 1 invariant 0 <= i && i <= padBytes
+//@   loop 1 invariant zero(buf, 8 + int(h.len), 8 + int(h.len) + i)
+//@   loop 1 invariant buf[0] == h.typ && buf[1] == 0 && buf[2] == 0 && buf[3] == 0 && LE32(buf, 4) == ite(h.typ == FrameCommit, h.crc, h.len)
+//@   loop 1 invariant eqbytes(buf, 8, payload, 0, int(h.len))
+//@   loop 1 invariant unchanged_outside(buf, 0, 8 + int(h.len) + padBytes)
+//@   loop 1 invariant padBytes == padLen_spec(int(h.len)) && len(buf) >= 8 + int(h.len) + padBytes
+//@   loop 1 decreases padBytes - i
+
+//@ -- README index frame: type 2, length 4*n, n little-endian uint32 file offsets, zero padded to 8 bytes
+//@ func writeIndexFrame
+//@   props C09
+//@   requires len(offsets) <= 0x3fffffff
+//@   assigns buf[0:8+4*len(offsets)+padLen_spec(4*len(offsets))]
+//@   ensures[C09.index-short] len(offsets) > 0 ==> (result != nil <==> len(buf) < 8 + 4*len(offsets) + padLen_spec(4*len(offsets)))
+//@   ensures[C09.index-empty] len(offsets) == 0 && len(buf) < 8 ==> result != nil
+//@   ensures[C09.index-header] result == nil ==> buf[0] == FrameIndex && buf[1] == 0 && buf[2] == 0 && buf[3] == 0 && LE32(buf, 4) == uint32(4*len(offsets))
+//@   ensures[C09.index-entries] result == nil ==> (forall j int :: 0 <= j && j < len(offsets) ==> LE32(buf, 8 + 4*j) == offsets[j])
+//@   ensures[C09.index-padding] result == nil && len(offsets) % 2 == 1 ==> LE32(buf, 8 + 4*len(offsets)) == 0
+//@   loop 1 invariant -1 <= rangeindex && rangeindex < len(offsets) && cursor == 8 + 4*(rangeindex+1)
+//@   loop 1 invariant len(buf) >= 8 + 4*len(offsets) + padLen_spec(4*len(offsets))
+//@   loop 1 invariant buf[0] == FrameIndex && buf[1] == 0 && buf[2] == 0 && buf[3] == 0 && LE32(buf, 4) == uint32(4*len(offsets))
+//@   loop 1 invariant forall j int :: {offsets[j]} 0 <= j && j <= rangeindex ==> LE32(buf, 8 + 4*j) == offsets[j]
+//@   loop 1 invariant unchanged_outside(buf, 0, 8 + 4*len(offsets) + padLen_spec(4*len(offsets)))
+//@   loop 1 decreases len(offsets) - rangeindex
